@@ -135,6 +135,7 @@ func genSeqOps(r *rand.Rand, nKeys, n int, mutate bool) []BEOp {
 
 			op.SkipRead = chance(r, 0.05)
 			op.Mutate = mutate && chance(r, 0.5)
+			op.NilVal = chance(r, 0.06)
 			ops = append(ops, op)
 		case x < 52:
 			ops = append(ops, BEOp{Kind: "read", Key: k, SkipRead: chance(r, 0.1), Mutate: mutate && chance(r, 0.3)})
@@ -270,6 +271,7 @@ func shrinkBE(sc *Scenario, yield func(c *Scenario) bool) {
 				func(o *BEOp) bool { ok := o.HasTTL; o.HasTTL = false; o.TTLNs = 0; return ok },
 				func(o *BEOp) bool { ok := o.SkipRead; o.SkipRead = false; return ok },
 				func(o *BEOp) bool { ok := o.Mutate; o.Mutate = false; return ok },
+				func(o *BEOp) bool { ok := o.NilVal; o.NilVal = false; return ok },
 				func(o *BEOp) bool { ok := o.Key != 0; o.Key = 0; return ok },
 			}
 
@@ -302,7 +304,8 @@ func shrinkBE(sc *Scenario, yield func(c *Scenario) bool) {
 	cfgMods := []func(c *BEScenario) bool{
 		func(c *BEScenario) bool { ok := c.ValRep != ""; c.ValRep = ""; return ok },
 		func(c *BEScenario) bool { ok := c.Cfg.Stats; c.Cfg.Stats = false; return ok },
-		func(c *BEScenario) bool { ok := c.Cfg.Logger; c.Cfg.Logger = false; return ok },
+		func(c *BEScenario) bool { ok := c.Cfg.Logger; c.Cfg.Logger, c.Cfg.LogMask = false, 0; return ok },
+		func(c *BEScenario) bool { ok := c.Cfg.LogMask != 0; c.Cfg.LogMask = 0; return ok },
 		func(c *BEScenario) bool { ok := c.Cfg.Strategy != 0; c.Cfg.Strategy = 0; return ok },
 		func(c *BEScenario) bool { ok := c.Cfg.TTLNs != 0; c.Cfg.TTLNs = 0; return ok },
 		func(c *BEScenario) bool { ok := c.Backend != "sharded"; c.Backend = "sharded"; return ok },
